@@ -29,6 +29,8 @@ pub enum Beh {
     DeathEof,
     DeathReset,
     DeathAlert,
+    /// the session's owner (pool housekeeping, liveness monitor, application) calls close()
+    OwnerClose,
 }
 
 #[derive(Clone, Debug)]
@@ -41,6 +43,9 @@ pub struct Params {
     /// once the open request is on the wire the client-to-server direction stalls: the peer stops
     /// reading and the transport accepts no more bytes (no error either) — a black-holed uplink
     pub stall_uplink: bool,
+    /// with `stall_uplink`: 500 ms after the request another task writes on the session and parks inside the
+    /// transport write (holding the session's writer) because nothing is accepted any more
+    pub parked_writer: bool,
 }
 
 pub fn make_client(p: Params) -> anytls_rs::Result<Arc<Client>> {
@@ -97,6 +102,7 @@ pub fn make(p: Params) -> ScenarioFn {
             };
             // scripted server
             let pp = p.clone();
+            let sess_for_peer = sess.clone();
             let peer_task = tokio::spawn(async move {
                 let mut seen: HashMap<u32, bool> = HashMap::new();
                 let mut pending = vec![];
@@ -123,6 +129,14 @@ pub fn make(p: Params) -> ScenarioFn {
                             let inj = link.peer.inj.clone();
                             let id = f.id;
                             let stall_now = pp.stall_uplink;
+                            let sess_c = sess_for_peer.clone();
+                            if pp.parked_writer {
+                                let sess_w = sess_for_peer.clone();
+                                pending.push(tokio::spawn(async move {
+                                    tokio::time::sleep(Duration::from_millis(500)).await;
+                                    let _ = sess_w.write_control_frame(anytls_rs::protocol::Frame::control(anytls_rs::protocol::Command::HeartRequest, 0)).await;
+                                }));
+                            }
                             pending.push(tokio::spawn(async move {
                                 if at == u64::MAX {
                                     return;
@@ -141,6 +155,9 @@ pub fn make(p: Params) -> ScenarioFn {
                                     Beh::DeathEof => inj.close_write(),
                                     Beh::DeathReset => inj.set_read_fault(0, ReadFault::Reset),
                                     Beh::DeathAlert => inj.push(&enc(ALERT, 0, b"bye")),
+                                    Beh::OwnerClose => {
+                                        let _ = sess_c.close().await;
+                                    }
                                 }
                             }));
                             if stall_now {
@@ -203,7 +220,7 @@ pub fn make(p: Params) -> ScenarioFn {
                 }
                 // a session death caused by the *other* opener's behaviour also ends this open
                 let other_death = p.racing
-                    && p.beh.iter().enumerate().any(|(i, b)| i != t && matches!(b, Beh::DeathEof | Beh::DeathReset | Beh::DeathAlert) && p.at_ms[i] <= 30_000);
+                    && p.beh.iter().enumerate().any(|(i, b)| i != t && matches!(b, Beh::DeathEof | Beh::DeathReset | Beh::DeathAlert | Beh::OwnerClose) && p.at_ms[i] <= 30_000);
                 let mut allowed: Vec<&str> = vec![];
                 let before = at < 30_000;
                 let tie = at == 30_000 || (at == 29_990 && matches!(beh, Beh::Dup(..)));
@@ -221,7 +238,7 @@ pub fn make(p: Params) -> ScenarioFn {
                         if before || tie { allowed.push(if *a { "ok" } else { "server-error" }); }
                         if !before || tie { allowed.push("timeout"); }
                     }
-                    Beh::DeathEof | Beh::DeathReset | Beh::DeathAlert => {
+                    Beh::DeathEof | Beh::DeathReset | Beh::DeathAlert | Beh::OwnerClose => {
                         if before || tie { allowed.push("error"); allowed.push("server-error"); }
                         if !before || tie { allowed.push("timeout"); }
                     }
@@ -269,7 +286,7 @@ pub fn make(p: Params) -> ScenarioFn {
 }
 
 pub fn params_json(p: &Params) -> serde_json::Value {
-    json!({"beh": p.beh.iter().map(|b| format!("{b:?}")).collect::<Vec<_>>(), "at_ms": p.at_ms.iter().map(|a| if *a == u64::MAX { -1 } else { *a as i64 }).collect::<Vec<_>>(), "racing": p.racing, "server_settings": p.server_settings, "stall_uplink": p.stall_uplink})
+    json!({"beh": p.beh.iter().map(|b| format!("{b:?}")).collect::<Vec<_>>(), "at_ms": p.at_ms.iter().map(|a| if *a == u64::MAX { -1 } else { *a as i64 }).collect::<Vec<_>>(), "racing": p.racing, "server_settings": p.server_settings, "stall_uplink": p.stall_uplink, "parked_writer": p.parked_writer})
 }
 
 pub fn all_params(tier: Tier) -> Vec<(Params, usize)> {
@@ -286,6 +303,7 @@ pub fn all_params(tier: Tier) -> Vec<(Params, usize)> {
         Beh::DeathEof,
         Beh::DeathReset,
         Beh::DeathAlert,
+        Beh::OwnerClose,
     ];
     let times = [0u64, 1000, 29_999, 30_000, 30_001, u64::MAX];
     // single opener: full timing grid
@@ -300,13 +318,20 @@ pub fn all_params(tier: Tier) -> Vec<(Params, usize)> {
                 }
                 let bound = if t <= 1000 { if thorough { 2 } else { 1 } } else { 0 };
                 let t = if matches!(b, Beh::Dup(..)) && t == 29_999 { 29_990 } else { t };
-                v.push((Params { beh: vec![b.clone()], at_ms: vec![t], racing: false, server_settings: ss, stall_uplink: false }, bound));
+                v.push((Params { beh: vec![b.clone()], at_ms: vec![t], racing: false, server_settings: ss, stall_uplink: false, parked_writer: false }, bound));
             }
         }
     }
     // black-holed uplink once the request is out: the verdict (or the timeout) must still be reported
     for (b, t) in [(Beh::Nothing, 0u64), (Beh::Ok, 1000), (Beh::Err("no-route to host"), 1000), (Beh::Ok, 29_999), (Beh::Ok, 30_001), (Beh::UnknownId, 0), (Beh::Dup(true, false), 1000)] {
-        v.push((Params { beh: vec![b.clone()], at_ms: vec![t], racing: false, server_settings: true, stall_uplink: true }, if t <= 1000 { 1 } else { 0 }));
+        v.push((Params { beh: vec![b.clone()], at_ms: vec![t], racing: false, server_settings: true, stall_uplink: true, parked_writer: false }, if t <= 1000 { 1 } else { 0 }));
+    }
+    // the session dies (for every cause) while the uplink is black-holed, without and with another task parked inside
+    // the transport write: the waiting open must be told at once
+    for b in [Beh::OwnerClose, Beh::DeathEof, Beh::DeathReset, Beh::DeathAlert] {
+        for pw in [false, true] {
+            v.push((Params { beh: vec![b.clone()], at_ms: vec![1000], racing: false, server_settings: true, stall_uplink: true, parked_writer: pw }, 1));
+        }
     }
     // two racing opens on the same session
     for a in &behs {
@@ -315,7 +340,7 @@ pub fn all_params(tier: Tier) -> Vec<(Params, usize)> {
                 if !thorough && (ta, tb) != (0, 0) && !(matches!(a, Beh::Ok) || matches!(b, Beh::Ok)) {
                     continue;
                 }
-                v.push((Params { beh: vec![a.clone(), b.clone()], at_ms: vec![ta, tb], racing: true, server_settings: true, stall_uplink: false }, if thorough { 2 } else { 1 }));
+                v.push((Params { beh: vec![a.clone(), b.clone()], at_ms: vec![ta, tb], racing: true, server_settings: true, stall_uplink: false, parked_writer: false }, if thorough { 2 } else { 1 }));
             }
         }
     }
